@@ -72,7 +72,14 @@ def transform_weather(df, tr):
     if tr.get("trim_after"):
         df = df[df.Date <= pd.to_datetime(tr["trim_after"])]
     for name, pos, kind in tr.get("extra_cols", []):
-        vals = list(range(len(df))) if kind == "num" else ["x%d" % (i % 7) for i in range(len(df))]
+        if kind == "num":
+            vals = list(range(len(df)))
+        elif kind == "nan":          # an unrelated measurement with gaps
+            vals = [float("nan") if (i % 11) in (3, 4) else 0.5 * i for i in range(len(df))]
+        elif kind == "none":
+            vals = [None if (i % 13) == 5 else "s%d" % (i % 5) for i in range(len(df))]
+        else:
+            vals = ["x%d" % (i % 7) for i in range(len(df))]
         df.insert(min(int(pos), len(df.columns)), name, vals)
     if tr.get("perm"):
         req = ["MinTemp", "MaxTemp", "Precipitation", "ReferenceET", "Date"]
